@@ -26,6 +26,8 @@ func main() {
 		ccMain(os.Args[2:])
 	case "parse":
 		parseMain(os.Args[2:])
+	case "delay":
+		delayMain(os.Args[2:])
 	case "sources":
 		sourcesMain(os.Args[2:])
 	default:
